@@ -60,7 +60,7 @@ Print Assumptions C14_cancelled_stays.
 Example C14_nonvacuous :
   exists s, run (init_cst false false false)
     [CT_OP; CT_ADD 0 0 0 5 None None false false true 0 false; HM_PUSH 0 true 0 false 0;
-     CL_CANCEL; BAR_EXIT 0 0 5 true; CT_DONE; HM_STATE 1 true 0; HM_END 1; CT_EXIT;
+     CL_CANCEL; BAR_EXIT 0 0 5 true; CT_DONE; HM_END 1; CT_EXIT;
      NOTIFY [0]; FINAL 0 0 false true false] = Some s
   /\ ct_exited s = true.
 Proof. eexists. vm_compute. repeat split. Qed.
